@@ -118,6 +118,7 @@ def run(res: Results, idx: Index, tier: str) -> None:
             else:
                 res.unresolved("R-C11c", s.site, f"{_key(s)}::inputs=*", "starred inputs", fn)
     res.analysed["sites_with_opset_fact"] = guarded
+    rule_d(res, idx, sites, facts, hist)
 
     # positive control: an unguarded Swish emission must be flagged
     ctrl_missing = [v for v in claim if not hist.available("Swish", v)]
@@ -160,3 +161,104 @@ def _control_guard_engine(res: Results, facts: OpsetFacts) -> None:
         "Mish": frozenset(range(22, newest + 1)),
     }
     res.control("R-C11a", "guard engine derives if/else, flag-variable and abort-guard facts", got == want, str({k: (min(v), max(v)) for k, v in got.items() if v}))
+
+
+# ---------------------------------------------------------------------------------------------- R-C11d
+import re as _re
+
+_DTYPE_WORDS = ("bfloat16", "float16", "float32", "float64", "int4", "uint4", "int2", "uint2", "int8", "uint8", "int16", "uint16", "int32", "uint32", "int64", "uint64", "bool")
+
+
+def _added_types(hist, op: str):
+    """{version: set(simple dtype names)} of input types an operator gained at versions inside the claimed range."""
+    out = {}
+    vs = sorted(hist.hist.get(op, {}))
+    for prev, cur in zip(vs, vs[1:]):
+        if cur <= BASE:
+            continue
+        def types(v):
+            s = hist.hist[op][v]
+            acc = set()
+            for tc in s.type_constraints:
+                if any(tc.type_param_str == i.type_str for i in s.inputs):
+                    acc |= set(tc.allowed_type_strs)
+            return acc
+        added = {t[len("tensor("):-1] for t in (types(cur) - types(prev)) if t.startswith("tensor(")}
+        added = {t for t in added if t in _DTYPE_WORDS}
+        if added:
+            out[cur] = added
+    return out
+
+
+def _dtype_tokens(e: ast.AST, mod, fi) -> set:
+    txt = ast.unparse(e)
+    for n in ast.walk(e):
+        if isinstance(n, ast.Name):
+            # module-level constant: use its defining source text
+            for st in mod.tree.body:
+                tgt = st.targets[0] if isinstance(st, ast.Assign) and len(st.targets) == 1 else getattr(st, "target", None)
+                if isinstance(tgt, ast.Name) and tgt.id == n.id and getattr(st, "value", None) is not None:
+                    txt += " " + ast.unparse(st.value)
+    found = set()
+    for w in sorted(_DTYPE_WORDS, key=len, reverse=True):
+        if _re.search(r"(?<![A-Za-z0-9])" + w + r"(?![0-9])", txt):
+            found.add(w)
+            txt = _re.sub(r"(?<![A-Za-z0-9])" + w + r"(?![0-9])", " ", txt)
+    return found
+
+
+def rule_d(res: Results, idx: Index, sites, facts: OpsetFacts, hist) -> None:
+    res.rule("R-C11d", "a lowering that gates an operator's dtype handling on the opset at which ONNX extended that operator's input types covers every type added at that version", floor=1)
+    from ..flow import defuse
+    seen = set()
+    for s in sites:
+        if s.op is None or s.func is None or not hist.known(s.op):
+            continue
+        added = _added_types(hist, s.op)
+        if not added:
+            continue
+        fi = s.func
+        if (id(fi.node), s.op) in seen:
+            continue
+        seen.add((id(fi.node), s.op))
+        du = defuse(fi.node)
+        # flag expressions: comparisons of the opset with a version at which the op's input types grew
+        for V, A in sorted(added.items()):
+            ge = frozenset(v for v in facts.U if v >= V)
+            flags = set()
+            flag_exprs = []
+            for n in ast.walk(fi.node):
+                if isinstance(n, ast.Compare):
+                    c = facts.cond_set(n, True, fi)
+                    if c is not None and (c == ge or c == facts.U - ge):
+                        flag_exprs.append(n)
+            if not flag_exprs:
+                continue
+            for name, ds in du.defs.items():
+                for d in ds:
+                    if d.value is not None and any(x in flag_exprs for x in ast.walk(d.value)):
+                        flags.add(name)
+            # boolean contexts that combine a flag with dtype tests
+            mentioned = set()
+            contexts = []
+            for n in ast.walk(fi.node):
+                if isinstance(n, (ast.BoolOp, ast.IfExp, ast.If)):
+                    expr = n.test if isinstance(n, (ast.IfExp, ast.If)) else n
+                    has_flag = any((x in flag_exprs) or (isinstance(x, ast.Name) and x.id in flags) for x in ast.walk(expr))
+                    if has_flag:
+                        t = _dtype_tokens(expr, fi.module, fi) & A
+                        if t:
+                            contexts.append((n, t))
+                            mentioned |= t
+            if not contexts:
+                continue
+            key = f"{fi.module.rel}::{fi.qualname}::{s.op}@{V}"
+            site = f"{fi.module.rel}:{contexts[0][0].lineno}"
+            partial = [(n, t) for n, t in contexts if t != A]
+            if partial:
+                n, t = partial[0]
+                res.violation("R-C11d", f"{fi.module.rel}:{n.lineno}", key,
+                              f"{s.op} accepts {sorted(A)} only from opset {V}; this lowering gates its dtype handling on opset {V} but the condition at line {n.lineno} only considers {sorted(t)}: "
+                              f"{sorted(A - t)} inputs reach {s.op} below opset {V}", fi.qualname)
+            else:
+                res.ok("R-C11d", site, key, f"opset-{V} gate covers every type {s.op} gained there: {sorted(A)}", fi.qualname)
